@@ -43,9 +43,10 @@ structure SetData where
   added : List Item
   removed : List Item
   absent : List Item := []       -- the negative cache of `__contains__`: items a membership test did not find
+  dirty : Bool := false          -- `obj in cache.modified_collections[attr]`: the next flush forgets added / removed / absent
 deriving Repr, DecidableEq
 
-def SetData.new : SetData := ⟨[], false, none, [], [], []⟩
+def SetData.new : SetData := ⟨[], false, none, [], [], [], false⟩
 
 structure Coll where
   sd : SetData              -- `obj._vals_.get(attr)` (`None` = a fresh SetData: every reader creates it on demand)
@@ -77,31 +78,31 @@ def bump (c : Option Int) (d : Int) : Option Int := c.map (· + d)
 /-- `reverse_add` on this SetData -/
 def revAdd (sd : SetData) (x : Item) : Except Err SetData :=
   if x ∈ sd.items ∨ x ∈ sd.added then .error .assertion
-  else if x ∈ sd.removed then .ok { sd with items := sd.items ++ [x], count := bump sd.count 1, removed := sd.removed.erase x }
-  else .ok { sd with items := sd.items ++ [x], count := bump sd.count 1, added := sd.added ++ [x] }
+  else if x ∈ sd.removed then .ok { sd with items := sd.items ++ [x], count := bump sd.count 1, removed := sd.removed.erase x, dirty := true }
+  else .ok { sd with items := sd.items ++ [x], count := bump sd.count 1, added := sd.added ++ [x], dirty := true }
 
 /-- `reverse_remove` on this SetData -/
 def revRemove (sd : SetData) (x : Item) : Except Err SetData :=
   if x ∉ sd.items ∨ x ∈ sd.removed then .error .assertion
-  else if x ∈ sd.added then .ok { sd with items := sd.items.erase x, count := bump sd.count (-1), added := sd.added.erase x }
-  else .ok { sd with items := sd.items.erase x, count := bump sd.count (-1), removed := sd.removed ++ [x] }
+  else if x ∈ sd.added then .ok { sd with items := sd.items.erase x, count := bump sd.count (-1), added := sd.added.erase x, dirty := true }
+  else .ok { sd with items := sd.items.erase x, count := bump sd.count (-1), removed := sd.removed ++ [x], dirty := true }
 
 /-- the tail of `SetInstance.remove` for one item: `setdata -= items; count -= len(items);
     if added: (items, added) = (items - added, added - items); removed |= items` -/
 def removeTail (sd : SetData) (x : Item) : SetData :=
-  if x ∈ sd.added then { sd with items := sd.items.erase x, count := bump sd.count (-1), added := sd.added.erase x }
-  else { sd with items := sd.items.erase x, count := bump sd.count (-1), removed := ins x sd.removed }
+  if x ∈ sd.added then { sd with items := sd.items.erase x, count := bump sd.count (-1), added := sd.added.erase x, dirty := true }
+  else { sd with items := sd.items.erase x, count := bump sd.count (-1), removed := ins x sd.removed, dirty := true }
 
 /-- the same tail as the code runs it NOW after the reverse call of a one-to-many collection has already taken the item out of
     the SetData: `count -= len(items & setdata)` and `setdata -= items` do nothing, the item is no longer in `added`,
     `removed |= items` still happens -/
-def removeTailNow (sd : SetData) (x : Item) : SetData := { sd with removed := ins x sd.removed }
+def removeTailNow (sd : SetData) (x : Item) : SetData := { sd with removed := ins x sd.removed, dirty := true }
 
 /-- the tail of `SetInstance.add` for one item: `setdata |= new_items; count += len(new_items);
     if removed: (new_items, removed) = (new_items - removed, removed - new_items); added |= new_items` -/
 def addTail (sd : SetData) (x : Item) : SetData :=
-  if x ∈ sd.removed then { sd with items := ins x sd.items, count := bump sd.count 1, removed := sd.removed.erase x }
-  else { sd with items := ins x sd.items, count := bump sd.count 1, added := ins x sd.added }
+  if x ∈ sd.removed then { sd with items := ins x sd.items, count := bump sd.count 1, removed := sd.removed.erase x, dirty := true }
+  else { sd with items := ins x sd.items, count := bump sd.count 1, added := ins x sd.added, dirty := true }
 
 /-- `Set.load(obj)`: everything the database links, except what the session removed -/
 def loadAll (c : Coll) : SetData :=
@@ -142,11 +143,11 @@ def step (cfg : Cfg) (c : Coll) : Op → Except Err (Coll × Option Int)
     | .ok sd => .ok ({ c with sd := sd }, none)
     | .error e => .error e
   | .add x =>
-    if x ∈ c.sd.items then .ok (c, none)                                     -- new_items -= setdata: nothing left to add
+    if x ∈ c.sd.items then .ok ({ c with sd := { c.sd with dirty := true } }, none)   -- new_items -= setdata: nothing left to add, the collection is still registered as modified
     else .ok ({ c with sd := addTail c.sd x }, none)
   | .remove x =>
     if x ∈ c.sd.removed then .ok (c, none)                                   -- items -= removed; if not items: return
-    else if x ∉ c.sd.items then .ok (c, none)                                -- items &= setdata
+    else if x ∉ c.sd.items then .ok ({ c with sd := { c.sd with dirty := true } }, none)   -- items &= setdata: nothing left, still registered as modified
     else if cfg.m2m then .ok ({ c with sd := removeTail c.sd x }, none)      -- the other side's reverse_remove, then the tail
     else
       match revRemove c.sd x with                                            -- reverse.__set__(item, None) / item._delete_()
@@ -162,7 +163,9 @@ def step (cfg : Cfg) (c : Coll) : Op → Except Err (Coll × Option Int)
   | .flush =>
     let db' := (c.db.filter fun y => decide (y ∉ c.sd.removed)) ++ c.sd.added
     let reset := !cfg.m2m || cfg.owning || cfg.fixFlush
-    .ok ({ sd := if reset then { c.sd with added := [], removed := [], absent := [] } else c.sd, db := db' }, none)
+    -- only collections registered in `cache.modified_collections` are visited by `_calc_modified_m2m` (for the others added / removed are empty anyway)
+    .ok ({ sd := if reset then { c.sd with added := [], removed := [], absent := if c.sd.dirty then [] else c.sd.absent, dirty := false }
+                else { c.sd with dirty := false }, db := db' }, none)
   | .contains x => .ok ({ c with sd := (containsSd c x).1 }, some (b2i (containsSd c x).2))
   | .containsRev x =>
     .ok (c, some (b2i ((decide (x ∈ c.db) && !decide (x ∈ c.sd.removed)) || decide (x ∈ c.sd.added))))
